@@ -317,7 +317,8 @@ def run_params(P, scratch, params, tag):
     c = E.run_case(P, scratch, params['backend'], params['nworkers'], rng, flags=norm_flags(params.get('flags')), faults=faults,
                    kill_plan={int(w): g for w, g in (params.get('kill_plan') or {}).items()}, pre_done=params.get('pre_done', 0),
                    policy=make_policy(params.get('policy')), late={int(w): n for w, n in (params.get('late') or {}).items()},
-                   max_tasks={int(w): n for w, n in (params.get('max_tasks') or {}).items()}, tag=tag, fs_gates=bool(params.get('fs_gates')))
+                   max_tasks={int(w): n for w, n in (params.get('max_tasks') or {}).items()}, tag=tag, fs_gates=bool(params.get('fs_gates')),
+                   operator=(tuple(params['operator']) if params.get('operator') else None))
     return c
 
 
